@@ -33,9 +33,12 @@ import Mathlib.Tactic.NoncommRing
   * `DBand.liftHom`, `DBand.lift_norm_le`   the embedding `lift` (operator on `k` listed qubits ⊗ identity) is a
                                 ⋆-homomorphism `Op k →⋆ₙₐ[ℂ] Op n`, hence contractive: `‖lift A‖ ≤ ‖A‖` — the
                                 dimension-free step (no factor `2^n`)
-  * `kappa k atol`              `= 2^k · (atol + unitSlack (2^k) atol)`;  `kappa_nonneg`, `kappa_mono`
-  * `checkGateReplacement_band_op`   accepted, gate well formed, both sides unitary ⇒ a unit `z` with
+  * `kappa k atol`              `= 2^k · (atol + 1e-5)`;  `kappa_nonneg`, `kappa_mono`
+  * `kappaL k atol`             `= 2^k · (atol + 1e-5·(1 + atol)/(1 − 1e-5))`;  `kappaL_nonneg`, `kappaL_mono`, `kappa_le_kappaL`
+  * `checkGateReplacement_band_op`   accepted, gate well formed, replacement unitary ⇒ a unit `z` with
                                 `‖gateOp n g − z • circOp n (gateStmts gs) []‖ ≤ kappa (#operands of g) atol`
+  * `checkGateReplacement_band_op_left`   accepted, gate well formed and unitary, NOTHING about the replacement ⇒ the same
+                                with `kappaL`
 -/
 
 open Matrix
@@ -408,40 +411,74 @@ theorem circOp_norm_le (n : Nat) (l : List (Stmt ℝ)) (h : ∀ s ∈ l, s.OpOK 
           mul_le_mul h1 h2 (norm_nonneg _) zero_le_one
       _ = 1 := one_mul 1
 
-/-- the single-replacement constant for a gate on `k` qubits:
-    `κ(k, atol) = 2^k · (atol + unitSlack (2^k) atol)`, `unitSlack N a = (√N·a + 2·1e-5 + 1e-5·√N·a)/(1 − 1e-5)` -/
-noncomputable def kappa (k : Nat) (atol : ℝ) : ℝ := 2 ^ k * (atol + EqBands.unitSlack (2 ^ k) atol)
+/-- the single-replacement constant for a gate on `k` qubits: `κ(k, atol) = 2^k · (atol + 1e-5)`
+    (`1e-5` is numpy's default `rtol`, which `np.allclose(…, atol=ATOL)` keeps; before the measured phase was
+    normalised the constant was `2^k · (atol + unitSlack (2^k) atol) ≈ 2^k·((1 + 2^{k/2})·atol + 2e-5)`) -/
+noncomputable def kappa (k : Nat) (atol : ℝ) : ℝ := 2 ^ k * (atol + 1e-5)
 
 theorem kappa_nonneg (k : Nat) {atol : ℝ} (h : 0 ≤ atol) : 0 ≤ kappa k atol := by
   unfold kappa
-  have := EqBands.unitSlack_nonneg (2 ^ k) h
+  have := rtol_real_nonneg
   positivity
-
-theorem unitSlack_mono {N M : Nat} (h : N ≤ M) {atol : ℝ} (ha : 0 ≤ atol) :
-    EqBands.unitSlack N atol ≤ EqBands.unitSlack M atol := by
-  unfold EqBands.unitSlack
-  rw [rtol_real]
-  have hs : √(N : ℝ) ≤ √(M : ℝ) := Real.sqrt_le_sqrt (by exact_mod_cast h)
-  have h1 : √(N : ℝ) * atol ≤ √(M : ℝ) * atol := mul_le_mul_of_nonneg_right hs ha
-  apply div_le_div_of_nonneg_right _ (by norm_num)
-  linarith
 
 theorem kappa_mono {k K : Nat} (h : k ≤ K) {atol : ℝ} (ha : 0 ≤ atol) : kappa k atol ≤ kappa K atol := by
   unfold kappa
   have h2 : (2 : ℝ) ^ k ≤ 2 ^ K := pow_le_pow_right₀ (by norm_num) h
-  have h3 := unitSlack_mono (Nat.pow_le_pow_right (by decide : 0 < 2) h) ha
-  have h4 := EqBands.unitSlack_nonneg (2 ^ k) ha
-  apply mul_le_mul h2 (by linarith) (by linarith) (by positivity)
+  have h4 := rtol_real_nonneg
+  exact mul_le_mul_of_nonneg_right h2 (by linarith)
+
+/-- the single-replacement constant when NOTHING is assumed about the replacement (only the replaced gate is unitary):
+    `κ_L(k, atol) = 2^k · (atol + leftSlack atol)`, `leftSlack atol = 1e-5·(1 + atol)/(1 − 1e-5)` -/
+noncomputable def kappaL (k : Nat) (atol : ℝ) : ℝ := 2 ^ k * (atol + EqBands.leftSlack atol)
+
+theorem kappaL_nonneg (k : Nat) {atol : ℝ} (h : 0 ≤ atol) : 0 ≤ kappaL k atol := by
+  unfold kappaL
+  have := EqBands.leftSlack_nonneg h
+  positivity
+
+theorem kappaL_mono {k K : Nat} (h : k ≤ K) {atol : ℝ} (ha : 0 ≤ atol) : kappaL k atol ≤ kappaL K atol := by
+  unfold kappaL
+  have h2 : (2 : ℝ) ^ k ≤ 2 ^ K := pow_le_pow_right₀ (by norm_num) h
+  have h4 := EqBands.leftSlack_nonneg ha
+  exact mul_le_mul_of_nonneg_right h2 (by linarith)
+
+/-- `κ ≤ κ_L` -/
+theorem kappa_le_kappaL (k : Nat) {atol : ℝ} (ha : 0 ≤ atol) : kappa k atol ≤ kappaL k atol := by
+  unfold kappa kappaL EqBands.leftSlack
+  have h2 : (0 : ℝ) ≤ 2 ^ k := by positivity
+  apply mul_le_mul_of_nonneg_left _ h2
+  rw [rtol_real]
+  have : (1 : ℝ) ≤ (1 + atol) / (1 - 1 / 100000) := by
+    rw [le_div_iff₀ (by norm_num)]; linarith
+  nlinarith
+
+/-- the local difference `A − z•B` tensored with the identity: operator norm `≤ 2^k·τ` if all entries are `≤ τ` -/
+theorem DBand.lift_diff_norm_le {n : Nat} (g : Gate ℝ) (hwf : GateWF n g) (A B : Mat ℝ) (z : ℂ) (τ : ℝ) (hτ : 0 ≤ τ)
+    (H : ∀ i j, i < 2 ^ g.operands.length → j < 2 ^ g.operands.length →
+      ‖(A.get i j).toC - z * (B.get i j).toC‖ ≤ τ) :
+    ‖(lift (g.operands.map Int.toNat) (List.length_map _) (A.toMatrixOn (2 ^ g.operands.length)) : Op n)
+        - z • lift (g.operands.map Int.toNat) (List.length_map _) (B.toMatrixOn (2 ^ g.operands.length))‖
+      ≤ 2 ^ g.operands.length * τ := by
+  have hndN := nodup_map_toNat (n := n) g.operands hwf.1 hwf.2
+  have hltN := map_toNat_lt (n := n) g.operands hwf.2
+  rw [← lift_smul, ← DBand.lift_sub]
+  refine le_trans (DBand.lift_norm_le _ _ hndN hltN _) ?_
+  have := DBand.opNorm_le_of_entries
+    (A.toMatrixOn (2 ^ g.operands.length) - z • B.toMatrixOn (2 ^ g.operands.length)) _ hτ
+    (fun i j => by
+      simp only [Matrix.sub_apply, Matrix.smul_apply, smul_eq_mul, Mat.toMatrixOn_apply]
+      exact H i.val j.val i.isLt j.isLt)
+  push_cast at this
+  exact this
 
 /-- **One accepted replacement, operator norm, dimension-free.**  If `check_gate_replacement` accepts `gs` for the
-    well-formed gate `g` and both sides are unitary, then for some unit `z`
-    `‖gateOp n g − z • circOp n (gateStmts gs) []‖ ≤ 2^k · (atol + unitSlack (2^k) atol)` with `k` the number of operands
+    well-formed gate `g` and the replacement is unitary, then for some unit `z`
+    `‖gateOp n g − z • circOp n (gateStmts gs) []‖ ≤ 2^k · (atol + 1e-5)` with `k` the number of operands
     of `g` — whatever the size `n` of the register: the difference is `lift (A − z•B)` (the local difference tensored
     with the identity on the other qubits), `lift` is a ⋆-homomorphism of C⋆-algebras, hence contractive, and a
     `2^k × 2^k` matrix with entries `≤ τ` has operator norm `≤ 2^k·τ`. -/
 theorem checkGateReplacement_band_op (atol : ℝ) (hatol : 0 < atol) (n : Nat) (g : Gate ℝ)
     (gs : List (Gate ℝ)) (hwf : GateWF n g)
-    (hU1 : gateOp n g ∈ Matrix.unitaryGroup (Fin (2 ^ n)) ℂ)
     (hU2 : circOp n (gateStmts gs) [] ∈ Matrix.unitaryGroup (Fin (2 ^ n)) ℂ)
     (h : checkGateReplacement atol g gs = none) :
     ∃ z : ℂ, ‖z‖ = 1 ∧ ‖gateOp n g - z • circOp n (gateStmts gs) []‖ ≤ kappa g.operands.length atol := by
@@ -450,25 +487,34 @@ theorem checkGateReplacement_band_op (atol : ℝ) (hatol : 0 < atol) (n : Nat) (
   have hgB := localMatrix_lift (n := n) g.operands hwf.1 hwf.2 hB []
   have hndN := nodup_map_toNat (n := n) g.operands hwf.1 hwf.2
   have hltN := map_toNat_lt (n := n) g.operands hwf.2
-  rw [hgA] at hU1
   rw [← hgB] at hU2
-  obtain ⟨z, hz, H⟩ := equivPhase_sound_unitary atol hatol (2 ^ g.operands.length) (Nat.two_pow_pos _) A B
-    (localMatrix_dim hA).1 (localMatrix_dim hB).1
-    (EqBands.unitary_of_lift _ _ hndN hltN _ hU1) (EqBands.unitary_of_lift _ _ hndN hltN _ hU2) heq
+  obtain ⟨z, hz, H⟩ := equivPhase_sound_unitary atol hatol (2 ^ g.operands.length) A B
+    (localMatrix_dim hA).1 (localMatrix_dim hB).1 (EqBands.unitary_of_lift _ _ hndN hltN _ hU2) heq
   refine ⟨z, hz, ?_⟩
-  rw [hgA, ← hgB, ← lift_smul, ← DBand.lift_sub]
-  refine le_trans (DBand.lift_norm_le _ _ hndN hltN _) ?_
-  have hτ : 0 ≤ atol + EqBands.unitSlack (2 ^ g.operands.length) atol := by
-    have := EqBands.unitSlack_nonneg (2 ^ g.operands.length) hatol.le
-    linarith
-  have := DBand.opNorm_le_of_entries
-    (A.toMatrixOn (2 ^ g.operands.length) - z • B.toMatrixOn (2 ^ g.operands.length)) _ hτ
-    (fun i j => by
-      simp only [Matrix.sub_apply, Matrix.smul_apply, smul_eq_mul, Mat.toMatrixOn_apply]
-      exact H i.val j.val i.isLt j.isLt)
-  unfold kappa
-  push_cast at this
-  exact this
+  rw [hgA, ← hgB]
+  exact DBand.lift_diff_norm_le g hwf A B z _ (by have := rtol_real_nonneg; linarith) H
+
+/-- **One accepted replacement, NO hypothesis on the replacement** (only the replaced gate is unitary): the check alone
+    guarantees `‖gateOp n g − z • circOp n (gateStmts gs) []‖ ≤ κ_L(k, atol) = 2^k·(atol + 1e-5·(1 + atol)/(1 − 1e-5))`
+    for a unit `z`.  (False before the measured phase was normalised: `MatrixGate(2·U)` was accepted for `U`.) -/
+theorem checkGateReplacement_band_op_left (atol : ℝ) (hatol : 0 < atol) (n : Nat) (g : Gate ℝ)
+    (gs : List (Gate ℝ)) (hwf : GateWF n g)
+    (hU1 : gateOp n g ∈ Matrix.unitaryGroup (Fin (2 ^ n)) ℂ)
+    (h : checkGateReplacement atol g gs = none) :
+    ∃ z : ℂ, ‖z‖ = 1 ∧ ‖gateOp n g - z • circOp n (gateStmts gs) []‖ ≤ kappaL g.operands.length atol := by
+  obtain ⟨-, A, B, hA, hB, heq⟩ := checkGateReplacement_none_local atol g gs h
+  have hgA := gateOp_eq_lift_local hwf hA
+  have hgB := localMatrix_lift (n := n) g.operands hwf.1 hwf.2 hB []
+  have hndN := nodup_map_toNat (n := n) g.operands hwf.1 hwf.2
+  have hltN := map_toNat_lt (n := n) g.operands hwf.2
+  have hU1' := hU1
+  rw [hgA] at hU1'
+  obtain ⟨z, hz, H⟩ := equivPhase_sound_unitary_left atol hatol (2 ^ g.operands.length) A B
+    (localMatrix_dim hA).1 (localMatrix_dim hB).1 (EqBands.unitary_of_lift _ _ hndN hltN _ hU1') heq
+  refine ⟨z, hz, ?_⟩
+  rw [hgA, ← hgB]
+  exact DBand.lift_diff_norm_le g hwf A B z _
+    (by have := EqBands.leftSlack_nonneg hatol.le; linarith) H
 
 end OSq
 
@@ -509,21 +555,17 @@ example (θ : ℝ) (o : List Bool) :
   · rintro g nm h; cases h
   · rintro g nm h; cases h
 
--- `kappa` for a one-qubit gate at `atol = 1e-7` (the value of `ATOL` in `common.py`) is below `5e-5`
-example : kappa 1 (1 / 10000000 : ℝ) ≤ 5 / 100000 := by
-  unfold kappa EqBands.unitSlack
+-- `kappa` for a one-qubit gate at `atol = 1e-7` (the value of `ATOL` in `common.py`) is below `2.1e-5`
+-- (`5e-5` with the un-normalised phase), and so is `kappaL`
+example : kappa 1 (1 / 10000000 : ℝ) ≤ 21 / 1000000 := by
+  unfold kappa
   rw [rtol_real]
-  have h2 : √(((2 ^ 1 : ℕ)) : ℝ) ≤ 2 := by
-    rw [show (((2 ^ 1 : ℕ)) : ℝ) = 2 by norm_num]
-    exact Real.sqrt_le_iff.mpr ⟨by norm_num, by norm_num⟩
-  have h0 : 0 ≤ √(((2 ^ 1 : ℕ)) : ℝ) := Real.sqrt_nonneg _
-  generalize √(((2 ^ 1 : ℕ)) : ℝ) = s at h2 h0
-  have hden : (0 : ℝ) < 1 - 1 / 100000 := by norm_num
-  have key : (s * (1 / 10000000) + 2 * (1 / 100000) + 1 / 100000 * (s * (1 / 10000000))) / (1 - 1 / 100000)
-      ≤ 21 / 1000000 := by
-    rw [div_le_iff₀ hden]
-    nlinarith
-  nlinarith
+  norm_num
+
+example : kappaL 1 (1 / 10000000 : ℝ) ≤ 21 / 1000000 := by
+  unfold kappaL EqBands.leftSlack
+  rw [rtol_real]
+  norm_num
 
 end OSq
 
@@ -536,3 +578,4 @@ end OSq
 #print axioms OSq.DBand.opNorm_le_of_entries
 #print axioms OSq.DBand.lift_norm_le
 #print axioms OSq.checkGateReplacement_band_op
+#print axioms OSq.checkGateReplacement_band_op_left
